@@ -191,20 +191,20 @@ CHECKS = {
        "spec_of_sandwich); over ℝ the 50–130° clause is equivalent to (n·v)² < cos²50°·|n|²|v|² (angle_range_iff) with a rational "
        "enclosure of cos²50° PROVED to enclose (cosSq50_encloses), cis/trans is the sign of (v₁×v₂)·(v₂×v₃) (cis_iff), and the exact "
        "rational model is sound for the real-number conditions (model_*_sound). Bridges pin the regenerated chemistry tables and "
-       "thresholds 4.0 Å / 50° / 130° / 2 and that each atom is listed once (points_nodup — the O2' doubling fixed in f3fb2f0).",
+       "thresholds 4.0 Å / 50° / 130° / 2 and that each atom is listed once (points_nodup — the O2' doubling fixed in f3fb2f0). Props.C03Loop: find_pairs is also modelled FUNCTIONALLY (Model/FindPairs.lean: point order, look-up of atom/type/residue per point as the source does it (regenerated switch), candidates in ascending index order, the order-dependent consumption of donor → oxygen contacts with used_atoms, labels, most_common, greedy occupation, both sorts, merge_and_clean, Saenger). Proved: loop_refines_relational (the hydrogen bonds the loop collects are contacts of the relational model and contain every decided base-to-base contact), findPairs_meets_specPairs (on decided inputs the executable checker specPairs reports no failure on the functional model's own base-pair list), prefilter_exact (contacts = contactsAll: the bounding-ball pre-filter loses nothing).",
   note="That the float / KD-tree stage hands the occupation stage a label multiset between 'base-to-base contacts' and 'all contacts' is "
        "carried by the relational correspondence (exact contact sets recomputed in Rat; contacts within 1e-6 of a threshold undecided), "
-       "not by proof; O2' contacts count as support only, as the property says.",
-  technique="Lean 4 proof (greedy edge occupation for every order; ℝ-level angle/torsion equivalences; proved cos²50° enclosure) + relational correspondence against exact contact sets on corpus, motions and threshold placements",
+       "not by proof; O2' contacts count as support only, as the property says. The functional model is tied to the code by the FUNCTIONAL correspondence c03_loop: the three lists find_pairs returns, in order, must equal the model's whenever no decision quantity is inside the 1e-6 band; shape conditions of the refinement theorems: `Regular` (each atom listed once, every residue analysed and carrying an identity, no coincident atoms while the source keys its look-ups by coordinates — since the repair it keys them by point index).",
+  technique="Lean 4 proof (greedy edge occupation for every order; ℝ-level angle/torsion equivalences; proved cos²50° enclosure) + relational + functional (whole loop, three lists in order) correspondence against exact contact sets on corpus, motions and threshold placements",
   ref="9/C03"),
  "C11": dict(
   text="Lean theorems (Props.C11): decide-checked facts about the regenerated tables — saenger_reverse_consistent (a pair and its reverse "
        "get the same Saenger class), saenger_present_iff_defined, lw_reverse_involutive/closed/swaps_edges — and about the assembly stage: "
        "pairs_sorted_nodup_oriented (sorted, no repeats, lower residue first, no self pairs), mergeClean_one_class_per_pair, "
        "mergeClean_rules (3∧5→4, 7∧9→8), bph_class_from_donor / bph_class_decided (class implied by the donor atoms in contact). The "
-       "well-formedness specification is evaluated on the real extract_base_interactions output for every structure and model.",
+       "well-formedness specification is evaluated on the real extract_base_interactions output for every structure and model. Props.C11Loop / C03Loop: bph_br_sound (every recorded contact: base donor → named oxygen, different residues, within the distance band, class from bphClasses), used_atoms_exclusive, bph_br_output, specBph_holds (the executable checker specBph reports no failure on the functional model's lists).",
   note="Participants ⊆ residues of the analysed model and the 4.0 Å donor→oxygen distance are checked on real outputs (exact rational "
-       "re-derivation), not proved of the float code; write_csv/write_json rows are compared with the lists.",
+       "re-derivation), not proved of the float code; write_csv/write_json rows are compared with the lists. The donor→oxygen clauses are proved of the functional model of find_pairs, which equals the code on decided inputs (c03_loop).",
   technique="Lean 4 proof by decide over regenerated tables + assembly-stage theorems + specification predicates on real annotations of all models",
   ref="9/C11"),
  "C15": dict(
@@ -250,7 +250,7 @@ CHECKS = {
        "modelPairs_relabel, stackings_relabel). Tie-breaks: greedy_order_independent — under noTiedConflicts every order that "
        "Counter.most_common can produce gives the same sorted pair list; pairs_independent_of_arrival_order; tie_break_matters shows the "
        "hypothesis is needed. The REAL annotation and derived secondary structure of two presentations of one structure are compared "
-       "whenever the model finds no decision quantity inside the 1e-6 band on either presentation.",
+       "whenever the model finds no decision quantity inside the 1e-6 band on either presentation. Props.C05Loop: findPairs_move / findPairs_perm / findPairs_relabel — all three result lists of the functional model of the WHOLE find_pairs loop (incl. the consumption order of competing contacts) are unchanged under every proper rational motion, atom order and order-preserving renaming.",
   note="The theorems are about the models; C03 / C04 / C11 tie the models to the code and harness/corr/c05.py ties the property itself "
        "(metamorphic run of the real annotator). Modelled, not verified: IEEE round-off of moved coordinates and numpy/scipy arithmetic "
        "(the exact invariance is transported to floats by the measured margins); the iteration order of the set returned by "
@@ -260,7 +260,7 @@ CHECKS = {
        "concentrates on them). PDB-vs-mmCIF equality additionally rests on the readers (C08/C15) and on both one_letter_name derivations "
        "agreeing; it is checked on emitted documents, not proved. Rational rotations are dense in SO(3); real rotations are covered "
        "through the margins, not by a theorem over R. With gap detection the number of placeholders is a function of number differences "
-       "by design, so only number shifts are compared there.",
+       "by design, so only number shifts are compared there. Since the consumption order is the point-index order (after f72e0ea) it is part of the functional model (Model/FindPairs.lean, tied to the code by c03_loop) and covered by findPairs_move.",
   technique="Lean 4 proof (orthogonal-matrix algebra over commutative rings; one similarity relation StructSim instantiated for motion / "
             "atom order / relabelling; strong induction on counts for the greedy tie-break) + metamorphic differential run of the real "
             "annotator on corpus and synthetic structures under 24 exact axis permutations, random SO(3), ±500 A, atom shuffles, "
